@@ -508,6 +508,16 @@ pub fn panic_msg(p: Box<dyn std::any::Any + Send>) -> String {
 
 const CANARY: u8 = 0xC9;
 
+/// Does a canary-filled output buffer hold data after a failed call? Wiping it (one constant byte over any part of
+/// it) is not data.
+fn wrote_data(buf: &[u8]) -> bool {
+    let mut other = buf.iter().filter(|b| **b != CANARY);
+    match other.next() {
+        None => false,
+        Some(first) => other.any(|b| b != first),
+    }
+}
+
 impl Exec {
     pub fn new(cfg: &Config) -> Exec {
         let proto = cfg.proto();
@@ -1029,7 +1039,7 @@ impl Exec {
                 Err(p) => Real::Panic(panic_msg(p)),
             }
         };
-        if !real.is_ok() && buf.iter().any(|b| *b != CANARY) {
+        if !real.is_ok() && wrote_data(&buf) {
             rec.buf_touched_on_err = true;
             if self.keep_err_buf {
                 rec.err_buf = Some(buf.clone());
@@ -1256,7 +1266,7 @@ impl Exec {
                 Err(p) => Real::Panic(panic_msg(p)),
             }
         };
-        if !real.is_ok() && buf.iter().any(|b| *b != CANARY) {
+        if !real.is_ok() && wrote_data(&buf) {
             rec.buf_touched_on_err = true;
             if self.keep_err_buf {
                 rec.err_buf = Some(buf.clone());
@@ -1400,7 +1410,7 @@ impl Exec {
                 Err(p) => Real::Panic(panic_msg(p)),
             }
         };
-        if !real.is_ok() && buf.iter().any(|b| *b != CANARY) {
+        if !real.is_ok() && wrote_data(&buf) {
             rec.buf_touched_on_err = true;
             if self.keep_err_buf {
                 rec.err_buf = Some(buf.clone());
@@ -1496,7 +1506,7 @@ impl Exec {
                 Err(p) => Real::Panic(panic_msg(p)),
             }
         };
-        if !real.is_ok() && buf.iter().any(|b| *b != CANARY) {
+        if !real.is_ok() && wrote_data(&buf) {
             rec.buf_touched_on_err = true;
             if self.keep_err_buf {
                 rec.err_buf = Some(buf.clone());
